@@ -170,7 +170,7 @@ func (d *cStateDb) DestroyAccount(addr common.Address) {
 	// remove auth account
 	acc := d.accountKeeper.GetAccount(d.currentCtx, addr.Bytes())
 	if acc != nil {
-		destroyable, protectedReason := evmutils.CheckIfAccountIsSuitableForDestroying(acc)
+		destroyable, protectedReason := evmutils.CheckIfAccountIsSuitableForDestroyingAtTime(acc, d.currentCtx.BlockTime())
 		if !destroyable {
 			panic(
 				sdkerrors.ErrLogic.Wrapf(
@@ -564,7 +564,9 @@ func (d *cStateDb) CommitMultiStore(deleteEmptyObjects bool) error {
 
 	d.committed = true // prohibit further commit
 
-	for touchedAddress := range d.touched {
+	// destroy in ascending address order: destroying an account emits (bank) events,
+	// so the order must not depend on Go's randomised map iteration
+	for _, touchedAddress := range d.touched.sortedAddresses() {
 		_, markedAsDestroy := d.selfDestructed[touchedAddress]
 		if markedAsDestroy || (deleteEmptyObjects && d.Empty(touchedAddress)) {
 			d.DestroyAccount(touchedAddress)
